@@ -1,26 +1,41 @@
 """C02 — static resources: the right file, its exact bytes, its media type.
 Oracle (implementation only): the documented lookup (file, else <dir>/index.html, else
-<path>.html) evaluated directly on the generated tree; body byte-identical to that file;
+<path>.html) evaluated directly on the generated tree (vlib/gen_c02.py `spec`: path resolution as
+the kernel does it, links to files and directories included); body byte-identical to that file;
 Content-Type from an independent extension table; Content-Length = size; 404 with the
 not-found page (never another file's content) when the lookup selects nothing."""
-from vlib import common as C, serve as S, reqgen as G, strict_http as H, servecheck as K
+import re
+from vlib import common as C, serve as S, reqgen as G, strict_http as H, servecheck as K, gen_c02 as X
 
 DRIVERS = ['Serve', 'Mime']   # model driver files this check runs: scopes translator failures to the tables they (and the proofs) import
 TRUSTED = ['Linux file system semantics for the generated trees (real files through the harness)']
-ASSUMPTIONS = ['independent extension->type table for the extensions the generator uses (vlib/servecheck.py EXT_TYPES)',
-               'cases the documented lookup does not determine (trailing slash on a file, names file-ext refuses, percent-encoded names, symlinks, '
-               'directory without index but with sibling .html) are compared model-vs-code only']
+ASSUMPTIONS = ['independent extension->type table (vlib/servecheck.py EXT_TYPES and the table of props/mime_part.py)',
+               'cases the documented lookup does not determine (trailing slash on a file, names file-ext refuses, percent-encoded names, links with absolute targets or '
+               'leaving the root, links inside linked directories, the routes the chain answers before the static controller, requests that do not fit the request buffer, '
+               'conditional request headers, malformed request lines) are compared model-vs-code only',
+               'legacy entry point: judged on the common domain only (a plain file named exactly, no query, no fragment)']
 WITH_MODEL = True
 
+STATUS = dict(H.REASONS)
+STATUS.update({301: 'Moved Permanently', 302: 'Found', 304: 'Not Modified', 403: 'Forbidden', 405: 'Method Not Allowed', 406: 'Not Acceptable', 412: 'Precondition Failed',
+               414: 'URI Too Long', 431: 'Request Header Fields Too Large', 503: 'Service Unavailable'})
+
+TAILS = ['?next=/', '?return_to=/a/b/', '#/', '?', '#', '?#', '?x=.html', '#x.html', '?x=/index.html', '?/', '#sec/', '?a=1&b=2/', '?x=1#/', '/?x=/', '/#/']
+TAILS2 = ['??', '?a?b', '#a#b', '?a#b#c', '?a=b=c', '?=', '?&&', '?a=1&a=2', '?u=http://h/p', '?p=//x', '#//', '?x=1#y?z', '?.', '#.', '?x=..', '#..', '?/..', '?index.html', '#index.html',
+          '?.html', '?q=a+b', '?q=café', '#é', '?x=:', '?x=@', '?[]=1', '?a[0]=1', '?q=' + 'x' * 700, '#' + 'f' * 700]
+
 def build(rng, tier):
+    thorough = tier != 'quick'
     batches = []
     for ti in range(8 if tier == 'quick' else 100):
         tree = S.gen_tree(rng, small=(ti % 2 == 0))
         names = [n.decode('utf-8', 'surrogateescape') for n in tree.names]
         dirs = ['sub', 'sub/deep', 'dir.with.dots', 'emptydir']
         cases = []
-        def add(t, entry=None, hs=()):
-            cases.append(K.mk(tree, 'GET', t, hs, entry=entry or rng.choice(['proc', 'proc', 'proc', 'preq']), kind='lookup'))
+        def add(t, entry=None, hs=(), **kw):
+            # every target goes through the production entry point (the one the oracle judges); one in four also through another entry
+            cases.append(K.mk(tree, 'GET', t, hs, entry=entry or 'proc', kind='lookup', **kw))
+            if entry is None and rng.chance(1, 6): cases.append(K.mk(tree, 'GET', t, hs, entry=rng.choice(['preq', 'preq', 'aexec']), kind='lookup', **kw))
         for n in names:
             add('/' + n)
             add('/' + n + '?q=' + G.rand_token(rng))
@@ -32,76 +47,207 @@ def build(rng, tier):
             add('/' + n + 'x')
             add('//' + n); add('/./' + n)
             if '.' in n.split('/')[-1][1:]: add('/' + n.rsplit('.', 1)[0])   # extensionless
+            # near misses in letter case (the file system tells them apart), separators repeated inside the path, a dot or .html appended
+            cvs = X.case_variants(n)
+            for cv in (cvs if thorough else [rng.choice(cvs)] if cvs else []): add('/' + cv)
+            if '/' in n:
+                for sep in (['//', '/./', '/.//'] if thorough or n.endswith('.lnk') else [rng.choice(['//', '/./', '/.//'])]): add('/' + n.replace('/', sep))
+            for suf in (['.', '/.', '.html'] if thorough else [rng.choice(['.', '/.', '.html'])]): add('/' + n + suf)
+            add('/' + n + rng.choice(TAILS2))
         for d in dirs:
             add('/' + d); add('/' + d + '/'); add('/' + d + '?x=1'); add('/' + d + '/index.html'); add('/' + d + '/missing.txt')
         # query strings and fragments whose own text looks like a path decision (ends in '/', '.html', 'index.html', empty):
         # the lookup has to be made on the parsed path, never on the raw target
-        TAILS = ['?next=/', '?return_to=/a/b/', '#/', '?', '#', '?#', '?x=.html', '#x.html', '?x=/index.html', '?/', '#sec/', '?a=1&b=2/', '?x=1#/', '/?x=/', '/#/']
         for base in ['/' + d for d in dirs] + ['/' + n for n in names[:6]] + ['/' + n[:-5] for n in names if n.endswith('.html')][:4] + ['/']:
             for tl in TAILS: add(base + tl)
+            for tl in (TAILS2 if thorough else [rng.choice(TAILS2) for _ in range(2)]): add(base + tl)
         # links to files with RELATIVE targets, living below the root's top level; a namesake of the target sits in the root
         # (a resolution against the wrong directory serves the namesake or nothing)
         tree.file(tree.cwd + b'/sub/inner/data.txt', b'the data inside sub/inner').file(tree.cwd + b'/sub/data.txt', b'the data inside sub')
         tree.file(tree.cwd + b'/data.txt', b'NAMESAKE in the root').file(tree.cwd + b'/inner/data.txt', b'NAMESAKE in root/inner')
         tree.link(tree.cwd + b'/sub/alias.txt', b'data.txt').link(tree.cwd + b'/sub/down.txt', b'inner/data.txt')
         tree.link(tree.cwd + b'/sub/inner/up.txt', b'../data.txt').link(tree.cwd + b'/sub/inner/upup.txt', b'../../data.txt').link(tree.cwd + b'/top.lnk', b'sub/inner/data.txt')
-        for t in ['/sub/alias.txt', '/sub/down.txt', '/sub/inner/up.txt', '/sub/inner/upup.txt', '/top.lnk', '/sub/alias.txt?x=1', '/sub//alias.txt']: add(t, 'proc'); add(t)
+        for t in ['/sub/alias.txt', '/sub/down.txt', '/sub/inner/up.txt', '/sub/inner/upup.txt', '/top.lnk', '/sub/alias.txt?x=1', '/sub//alias.txt']: add(t)
         # a directory WITH an index page next to a page of the same stem: the index wins for /guide and /guide/, the page is /guide.html
         tree.file(tree.cwd + b'/guide/index.html', b'<p>the index inside guide/</p>').file(tree.cwd + b'/guide.html', b'<p>the page guide.html, a different length</p>')
         tree.file(tree.cwd + b'/sub/deep/index.html', b'<p>deep index</p>').file(tree.cwd + b'/sub/deep.html', b'<p>deep page, longer than the index</p>')
-        for t in ['/guide', '/guide/', '/guide.html', '/guide?x=1', '/guide#f', '/guide/index.html', '/sub/deep', '/sub/deep/', '/sub/deep.html']: add(t, 'proc'); add(t)
+        for t in ['/guide', '/guide/', '/guide.html', '/guide?x=1', '/guide#f', '/guide/index.html', '/sub/deep', '/sub/deep/', '/sub/deep.html']: add(t)
         if ti % 4 == 1:
             tree.file(tree.cwd + b'/docs/x.txt', b'x').file(tree.cwd + b'/docs.html', b'<d>').file(tree.cwd + b'/old.html.html', b'<o>')
             tree.file(tree.cwd + b'/idx/index.html/inner.txt', b'i').file(tree.cwd + b'/ghost.html/inner.txt', b'g')
             for t in ['/docs', '/docs/', '/old.html', '/idx', '/idx/', '/ghost', '/' + names[0] + '#x?y', '/' + names[0] + '#x']: add(t, 'proc')
-        for t in ['/missing', '/missing/', '/missing.html', '/sub/missing', '/index.html', '/404.html', '/a b.txt', '/a%20b.txt', '/a&b.txt', '/.hidden0.txt']:
+        for t in ['/missing', '/missing/', '/missing.html', '/sub/missing', '/index.html', '/404.html', '/a b.txt', '/a%20b.txt', '/a&b.txt', '/.hidden0.txt',
+                  '/index', '/404', '/sub/index', '/sub/index.htm', '/guide/index', '/INDEX.HTML', '/Sub/', '/SUB', '/Guide', '/guide/INDEX.html']:
             add(t)
+        # every directory the tree has (not only the four fixed names), in every spelling of "this directory"
+        alldirs = sorted(X.view(tree).dirs)
+        for d in (alldirs if thorough else [rng.choice(alldirs) for _ in range(3)]):
+            ds = d.decode('utf-8', 'surrogateescape')
+            V = ['/' + ds, '/' + ds + '/', '/' + ds + '//', '/' + ds + '/.', '/' + ds + '/./', '/' + ds + '/?x=1', '/' + ds + '#f', '/' + ds + '/index', '/' + ds + '/index.htm', '/' + ds + '.html',
+                 '//' + ds, '/./' + ds + '/']
+            for t in (V if thorough else V[:2] + [V[2 + rng.below(3)], V[5 + rng.below(2)], V[7 + rng.below(3)], V[10 + rng.below(2)]]):
+                add(t)
+        # history: answers do not depend on what was asked before - a sample of the batch again, in another order
+        again = [rng.choice(cases) for _ in range(16)]
+        cases.extend(again)
         batches.append((tree, cases))
     # F43: a working directory whose own path contains a character file-ext's filter refuses
     tree = S.gen_tree(rng, small=True); tree.root = tree.root + b' with space'; tree.cwd_refused = True
     batches.append((tree, [K.mk(tree, 'GET', '/' + n.decode('utf-8', 'surrogateescape'), entry='proc', kind='lookup') for n in tree.names[:6]]))
+    batches.extend(build_shapes(rng, thorough))
     return batches
 
+def build_shapes(rng, thorough):
+    """the input classes of vlib/gen_c02.py as batches"""
+    out = []
+    def cases_for(tree, targets, entries=('proc',), extra=0):
+        cs = []
+        for t in targets:
+            for e in entries: cs.append(K.mk(tree, 'GET', t, (), entry=e, kind='lookup'))
+            if extra and rng.chance(1, extra): cs.append(K.mk(tree, 'GET', t, (), entry=rng.choice(['preq', 'aexec']), kind='lookup'))
+        return cs
+    # 1. lookup shapes under differently named served directories (the name of the served directory is configuration)
+    cwds = X.CWDS if thorough else [b'root', X.CWDS[1 + rng.below(len(X.CWDS) - 1)]]
+    for cwd in cwds:
+        tree, T = X.shape_tree(rng, cwd, thorough)
+        if not thorough and cwd != b'root': T = sorted({rng.choice(T) for _ in range(170)})
+        cs = cases_for(tree, T, extra=4)
+        for t in (T if thorough else [rng.choice(T) for _ in range(30)]):
+            tl = rng.choice(TAILS + TAILS2)
+            cs.append(K.mk(tree, 'GET', t + tl, (), entry='proc', kind='lookup'))
+        cs.extend([rng.choice(cs) for _ in range(20)])
+        out.append((tree, cs))
+    # 2. contents and sizes
+    for _ in range(3 if thorough else 1):
+        tree, T = X.content_tree(rng, thorough)
+        out.append((tree, cases_for(tree, T, extra=3)))
+    # 3. every registered extension through the server
+    tree, T = X.mime_tree(rng, thorough)
+    out.append((tree, cases_for(tree, T, extra=8)))
+    # 4. request headers, protocol versions, request sizes, buffer sizes: the lookup depends on the path only
+    tree = X.new_tree(b'lvl0/root')
+    R = tree.cwd + b'/'
+    tree.file(R + b'h/file.bin', X.pattern(300, 3)).file(R + b'h/index.html', b'<p>index of h</p>').file(R + b'h/page.html', b'<p>page in h</p>').file(R + b'h/img.png', b'\x89PNG\r\n\x1a\n....')
+    tree.file(R + b'h/data.json', b'{"a": 1}').file(R + b'other/index.html', b'<p>other</p>').file(R + b'other.html', b'<p>other page</p>')
+    HT = ['/h/file.bin', '/h', '/h/', '/h/page', '/h/img.png?x=1', '/h/data.json', '/h/missing', '/missing', '/other']
+    cs = []
+    for hs, judged in X.header_sets(rng, thorough):
+        for t in (HT if thorough else [HT[rng.below(2) * 3], HT[1 + rng.below(2)], rng.choice(HT[4:])]):
+            cs.append(K.mk(tree, 'GET', t, hs, entry='proc', kind='lookup', note=None if judged else 'model-only'))
+            if rng.chance(1, 6): cs.append(K.mk(tree, 'GET', t, hs, entry='aexec', kind='lookup', note=None if judged else 'model-only'))
+    for t in (HT if thorough else [HT[0], HT[1 + rng.below(2)], HT[3], rng.choice(HT[4:])]):
+        for v in ['HTTP/1.0', 'HTTP/2.0', 'HTTP/0.9', 'HTTP/1.1']:
+            cs.append(K.mk(tree, 'GET', t, [('Host', 'localhost')], version=v, entry='proc', kind='lookup'))
+            cs.append(K.mk(tree, 'GET', t, (), version=v, entry='proc', kind='lookup'))
+        # spellings of the request a strict reader would refuse: compared with the model only
+        for raw in [G.req('GET', t, eol=b'\n'), b'\r\n' + G.req('GET', t), G.req('GET', t, 'http/1.1'), G.req('get', t), G.req('GET', t)[:-2], G.req('GET', t) + b'trailing bytes',
+                    G.req('GET', t, headers=[('Content-Length', '5')], body=b'hello'), G.req('GET', t).replace(b' HTTP', b'  HTTP'), G.req('GET', t).replace(b'GET ', b'GET  ')]:
+            cs.append(K.mk(tree, 'GET', t, (), raw=raw, entry='proc', kind='lookup', note='model-only'))
+        n = len(G.req('GET', t))
+        for alloc in [n, n + 1, n + 2, 64, 128, 1024, 65536, 1000000]:
+            if alloc < n: continue
+            cs.append(K.mk(tree, 'GET', t, (), entry='proc', alloc=alloc, kind='lookup', note=None if alloc > n else 'model-only'))
+    for t in (['/h/file.bin', '/h', '/h/page', '/h/missing'] if thorough else [rng.choice(['/h/file.bin', '/h/page']), rng.choice(['/h', '/h/missing'])]):
+        for alloc in ([10000] if not thorough else [10000, 2000, 20000]):
+            for tq, judged in X.long_queries(t, alloc):
+                cs.append(K.mk(tree, 'GET', tq, (), entry='proc', alloc=alloc, kind='lookup', note=None if judged else 'model-only'))
+    out.append((tree, cs))
+    return out
+
+def build_env(rng, thorough):
+    """the same lookups under another configuration of the server (CORS switched to a list, other pool and buffer settings)"""
+    env = [('RWS_CONFIG_IP', '0.0.0.0'), ('RWS_CONFIG_PORT', '8080'), ('RWS_CONFIG_THREAD_COUNT', '2'), ('RWS_CONFIG_CORS_ALLOW_ALL', 'false'),
+           ('RWS_CONFIG_CORS_ALLOW_ORIGINS', 'https://foo.example,http://localhost:7878'), ('RWS_CONFIG_CORS_ALLOW_CREDENTIALS', 'true'), ('RWS_CONFIG_CORS_ALLOW_HEADERS', 'content-type,x-custom'),
+           ('RWS_CONFIG_CORS_ALLOW_METHODS', 'GET,POST'), ('RWS_CONFIG_CORS_EXPOSE_HEADERS', 'content-type'), ('RWS_CONFIG_CORS_MAX_AGE', '5'),
+           ('RWS_CONFIG_REQUEST_ALLOCATION_SIZE_IN_BYTES', '4096')]
+    tree, T = X.shape_tree(rng, b'conf/root', thorough)
+    cs = []
+    for t in (T if thorough else [rng.choice(T) for _ in range(80)]):
+        hs = rng.choice([(), [('Origin', 'https://foo.example')], [('Origin', 'https://bar.example')], [('Host', 'localhost'), ('Origin', 'http://localhost:7878')]])
+        cs.append(K.mk(tree, 'GET', t, hs, entry='proc', kind='lookup'))
+    return env, [(tree, cs)]
+
+def status_of(raw):
+    m = re.match(rb'^HTTP/\d\.\d (\d{3}) ', raw or b'')
+    return int(m.group(1)) if m else None
+
+def check_hit(res, c, resp, sp, variant, pre=''):
+    rel, content = sp['rel'], sp['content']
+    if variant == 'link-text-resolution':
+        # one signature for every symptom of this finding (416, another file's bytes)
+        if resp['status'] != 200 or resp['body'] != content:
+            res.fail(pre + 'lookup-miss:link-text-resolution', c.line[:300], f'status {resp["status"]}, {len(resp["body"])} bytes', None,
+                     f'C02: GET {c.target[:200]!r} should serve {rel[:200]!r} ({len(content)} bytes) through a link; answered {resp["status"]} with {len(resp["body"])} bytes')
+        return
+    if resp['status'] != 200:
+        res.fail(pre + 'lookup-miss' + (':' + variant if variant else ''), c.line[:300], f'status {resp["status"]}', None,
+                 f'C02: GET {c.target[:200]!r} should serve {rel[:200]!r} ({len(content)} bytes) but was answered {resp["status"]}')
+        return
+    if resp['body'] != content:
+        res.fail(pre + 'wrong-bytes', c.line[:300], f'{len(resp["body"])} bytes, first difference at {first_diff(resp["body"], content)}', None,
+                 f'C02: body of GET {c.target[:200]!r} is not byte-identical to {rel[:200]!r} ({len(content)} bytes)')
+    cl = H.get(resp['headers'], 'Content-Length')
+    if cl != [str(len(content))]:
+        res.fail(pre + 'wrong-content-length', c.line[:300], str(cl), None, f'C02: Content-Length {cl} for a file of {len(content)} bytes')
+    ext = K.ext_of(rel)
+    # whether a link is typed by its own name or by its target's is not stated: judged when the two carry the same extension
+    if sp.get('final_link') and K.ext_of(sp['cand']) != ext: return
+    want = X.types_for(ext) if ext is not None else None
+    if want:
+        ct = H.get(resp['headers'], 'Content-Type')
+        if len(ct) != 1 or ct[0] not in want:
+            res.fail(pre + 'wrong-media-type', c.line[:300], str(ct), None, f'C02: {rel[:200]!r} labelled {ct}, expected {sorted(want)}')
+
 def judge(res, results):
+    for tr in {id(c.tree): c.tree for c, _, _, _ in results}.values():
+        # (generation is over: the tree no longer changes; servecheck.spec_lookup asks for this mapping on every call)
+        tr.under_root = (lambda m: (lambda: m))(S.Tree.under_root(tr))
     for c, r, il, ml in results:
         res.evaluations += 1
-        res.distinct.add(hash((c.entry, c.raw, id(c.tree))))
+        res.distinct.add(hash((c.entry, c.raw, c.alloc, id(c.tree))))
         if ml is not None:
             res.programs += 1
             if il != ml: res.disagree(c.line[:400], il[:300], ml[:300], 'StaticResourceController / lookup')
         if r['head'].startswith(('panic', 'abort')): continue
-        if c.entry != 'proc':
-            continue       # the documented lookup is the production chain's; the legacy chain serves plain files only (compared with the model)
-        resp, why = K.parse_resp(r['writes'][0] if r['writes'] else b'')
-        if resp is None: continue
+        if c.note == 'model-only':
+            res.count('not judged: ' + c.entry + ' request outside the statement (conditional header, malformed or cut request)')
+            continue
         tb = c.target.encode('utf-8', 'surrogateescape')
-        spec = K.spec_lookup(c.tree, tb)
-        res.count('spec ' + spec[0] + (' ' + spec[1] if spec[0] == 'unspecified' else ''))
-        if spec[0] == 'hit':
-            rel, content = spec[1], spec[2]
-            variant = 'cwd-refused' if getattr(c.tree, 'cwd_refused', False) else spec[3] if len(spec) > 3 else ('fragment-qmark' if K.fragment_has_qmark(tb) else 'cwd-refused' if getattr(c.tree, 'cwd_refused', False) else None)
-            if resp['status'] != 200:
-                res.fail('lookup-miss' + (':' + variant if variant else ''), c.line[:300], f'status {resp["status"]}', None, f'C02: GET {c.target!r} should serve {rel!r} ({len(content)} bytes) but was answered {resp["status"]}')
-                continue
-            if resp['body'] != content:
-                res.fail('wrong-bytes', c.line[:300], f'{len(resp["body"])} bytes, first difference at {first_diff(resp["body"], content)}', None,
-                         f'C02: body of GET {c.target!r} is not byte-identical to {rel!r} ({len(content)} bytes)')
-            cl = H.get(resp['headers'], 'Content-Length')
-            if cl != [str(len(content))]:
-                res.fail('wrong-content-length', c.line[:300], str(cl), None, f'C02: Content-Length {cl} for a file of {len(content)} bytes')
-            ext = K.ext_of(rel)
-            if ext in K.EXT_TYPES and variant != 'symlink':      # (whether a link is typed by its own name or by its target's is not stated)
-                ct = H.get(resp['headers'], 'Content-Type')
-                if ct != [K.EXT_TYPES[ext]]:
-                    res.fail('wrong-media-type', c.line[:300], str(ct), None, f'C02: {rel!r} labelled {ct}, expected {K.EXT_TYPES[ext]}')
-        elif spec[0] == 'miss':
+        raw = r['writes'][0] if r['writes'] else b''
+        if c.entry == 'preq':
+            # the legacy chain serves plain files only; on the common domain (a regular file named exactly, no query, no fragment) the two entry points agree
+            sp = X.spec_checked(c.tree, tb)
+            if sp['kind'] == 'hit' and not sp['linked'] and not sp['variant'] and b'/' + sp['rel'] == tb and not getattr(c.tree, 'cwd_refused', False):
+                resp, why = K.parse_resp(raw, STATUS)
+                if resp is None:
+                    if raw and status_of(raw) != 200:
+                        res.fail('legacy-lookup-miss', c.line[:300], raw[:60].hex(), None, f'C02: legacy entry, GET {c.target[:200]!r} should serve {sp["rel"][:200]!r}: {why}')
+                    continue
+                res.count('spec hit (legacy entry, common domain)')
+                check_hit(res, c, resp, sp, None, 'legacy-')
+            continue
+        sp = X.spec_checked(c.tree, tb)
+        res.count('spec ' + sp['kind'] + (' ' + sp['why'] if sp['kind'] == 'unspecified' else '') + (' through a link' if sp.get('linked') else ''))
+        resp, why = K.parse_resp(raw, STATUS)
+        if resp is None:
+            # an answer the strict reader refuses: not a 200 / 404 at all?
+            st = status_of(raw)
+            if raw and sp['kind'] == 'hit' and st != 200 and not sp['variant'] and not getattr(c.tree, 'cwd_refused', False) and not K.fragment_has_qmark(tb):
+                res.fail('lookup-miss:unreadable-answer', c.line[:300], raw[:60].hex(), None, f'C02: GET {c.target[:200]!r} should serve {sp["rel"][:200]!r}; answer: {why}')
+            elif raw and sp['kind'] == 'miss' and st != 404:
+                res.fail('miss-not-404', c.line[:300], raw[:60].hex(), None, f'C02: GET {c.target[:200]!r} selects nothing; answer: {why}')
+            continue
+        if sp['kind'] == 'hit':
+            variant = 'cwd-refused' if getattr(c.tree, 'cwd_refused', False) else sp['variant'] if sp['variant'] else ('fragment-qmark' if K.fragment_has_qmark(tb) else None)
+            check_hit(res, c, resp, sp, variant)
+        elif sp['kind'] == 'miss':
             if resp['status'] != 404:
-                res.fail('miss-not-404', c.line[:300], f'status {resp["status"]}', None, f'C02: GET {c.target!r} selects nothing but was answered {resp["status"]}')
+                res.fail('miss-not-404', c.line[:300], f'status {resp["status"]}', None, f'C02: GET {c.target[:200]!r} selects nothing but was answered {resp["status"]}')
             own404 = c.tree.under_root().get(b'404.html')
             ok_body = (resp['body'] == own404) if own404 is not None else resp['body'].startswith(K.BUILTIN_404_PREFIX)
             if not ok_body:
                 res.fail('miss-body-not-notfound-page', c.line[:300], resp['body'][:60].hex(), None,
-                         f'C02: the 404 for {c.target!r} carries something other than the not-found page (a listing or another file)')
+                         f'C02: the 404 for {c.target[:200]!r} carries something other than the not-found page (a listing or another file)')
 
 def first_diff(a, b):
     for i, (x, y) in enumerate(zip(a, b)):
@@ -109,17 +255,31 @@ def first_diff(a, b):
     return min(len(a), len(b))
 
 def run(res, tier, seed):
-    rng = C.Rng(seed)
-    batches = build(rng, tier)
-    results = K.run_batches(batches, with_model=WITH_MODEL)
-    judge(res, results)
+    import threading
     from props import mime_part
+    rng = C.Rng(seed)
+    # generation is sequential (one PRNG stream); the three campaigns then run side by side
+    batches = build(rng, tier)
+    env, ebatches = build_env(rng, tier != 'quick')
     mlines, mmeta = mime_part.gen_lines(rng, tier)
-    mimpl, mmodel = C.run_both(mlines)
+    out = {}
+    ts = [threading.Thread(target=lambda: out.__setitem__('main', K.run_batches(batches, with_model=WITH_MODEL))),
+          threading.Thread(target=lambda: out.__setitem__('env', K.run_batches(ebatches, with_model=WITH_MODEL, env=env))),
+          threading.Thread(target=lambda: out.__setitem__('mime', C.run_both(mlines)))]
+    for t in ts: t.start()
+    for t in ts: t.join()
+    results = out['main'] + out['env']
+    judge(res, results)
+    mimpl, mmodel = out['mime']
     mime_part.judge(res, mlines, mmeta, mimpl, mmodel)
     res.rule = ('trees: nested directories, empty files, position-dependent and random binary content incl. all 256 byte values, sizes around 8191/8192/8193 and '
                 '9999/10000/10001, names with several dots / none / leading dot / non-ASCII / upper-case extension, symlink, own index.html/404.html present or not; '
                 'paths: every file, with query, fragment, both; .html fallback with and without query; near misses (extra slash, truncated, suffixed, '
-                'extensionless, doubled slash, ./); directories with and without index; missing; distinct = (tree, entry, request)')
+                'extensionless, doubled slash, ./, letter case); directories with and without index; missing; '
+                'shape trees (vlib/gen_c02.py): precedence of the three steps, request extension vs selected file, empty files at every step, spellings of index.html/.html, '
+                'names of the built-in routes elsewhere, special / long / deep / non-ASCII names, links to directories, as index, as page, chains, dangling, loops, '
+                'same names at several levels, case twins; contents (NUL, blanks, line ends, encodings) and sizes around 4096..1 MiB blocks through all three steps; '
+                'one file per registered extension through the server; request headers, protocol versions, requests around the buffer size, buffer sizes, '
+                'served-directory names and a second configuration; repeated requests; distinct = (tree, entry, buffer, request)')
     for c, r, il, ml in results[:3]:
-        res.sample({'entry': c.entry, 'target': c.target, 'status_line': r['recv'][:30].decode('latin1'), 'spec': str(K.spec_lookup(c.tree, c.target.encode('utf-8', 'surrogateescape'))[:2])})
+        res.sample({'entry': c.entry, 'target': c.target, 'status_line': r['recv'][:30].decode('latin1'), 'spec': str(X.spec_checked(c.tree, c.target.encode('utf-8', 'surrogateescape')).get('kind'))})
